@@ -20,12 +20,16 @@ C == "ethereum"
 Thr == <<43690, 43690>>          \* 2863311530 = two thirds of 2^32
 
 \* the constructor's ValsetUpdatedEvent (valset nonce 0, event nonce 1) is the first event validators report
-Ev0 == [t |-> "SSExec", n |-> 1, ssn |-> 0, eh |-> 4, m |-> SortedMembers(Cfg(InitHub), CurrentSigners(InitHub, C)), txh |-> "x0"]
-InitEvm ==
-    /\ hub = InitHub /\ g = GhostInit(InitHub) /\ hist = <<>> /\ bad = {} /\ pick = "" /\ cnt = 0
-    /\ xw = [InitExt EXCEPT ![C].log = <<Ev0>>, ![C].h = 4]
+Ev0Of(h0) == [t |-> "SSExec", n |-> 1, ssn |-> 0, eh |-> 4, m |-> SortedMembers(Cfg(h0), CurrentSigners(h0, C)), txh |-> "x0"]
+InitEvmWith(h0) ==
+    /\ hub = h0 /\ g = GhostInit(h0) /\ hist = <<>> /\ bad = {} /\ pick = "" /\ cnt = 0
+    /\ xw = [XwInit(h0) EXCEPT ![C].log = <<Ev0Of(h0)>>, ![C].h = 4]
     /\ kx = [blk |-> 4, vsn |-> 0, evn |-> 1, thr |-> Thr, lbn |-> <<>>, cust |-> <<>>,
-             set |-> [n |-> 0, m |-> SortedMembers(Cfg(InitHub), CurrentSigners(InitHub, C))]]
+             set |-> [n |-> 0, m |-> SortedMembers(Cfg(h0), CurrentSigners(h0, C))]]
+InitEvm == InitEvmWith(InitHub)
+\* scripts/cfg_evm2.json: v3 is bonded but has registered no key for the chain (it still votes on events)
+InitHub2 == [InitHub EXCEPT !.ch[C].ve = [v1 |-> "e1", v2 |-> "e2"], !.ch[C].ov = [o1 |-> "v1", o2 |-> "v2"], !.ch[C].eo = [e1 |-> "o1", e2 |-> "o2"]]
+InitEvm2 == InitEvmWith(InitHub2)
 
 \* an action of the external chain: recorded in the script, no hub step
 EvmDo(act, kx2, xw2) ==
@@ -119,6 +123,7 @@ NextEvm ==
        ELSE EvmAction(pick) /\ pick' = ""
 
 SpecEvm == InitEvm /\ [][NextEvm]_evars
+SpecEvm2 == InitEvm2 /\ [][NextEvm]_evars
 ViewEvm == <<hub, xw, g, bad, kx>>
 
 \* design-level invariants of the combined system
